@@ -601,7 +601,10 @@ def check(pid, tier, seed):
                 err_hist[l[4:]] = err_hist.get(l[4:], 0) + 1
             elif l == "panic":
                 err_hist["panic"] = err_hist.get("panic", 0) + 1
-        fails = mod.oracle(s, io)
+        try:
+            fails = mod.oracle(s, io)
+        except Exception as e:      # the implementation's output is not even of the shape the oracle can read: that is a failure of the property's check on this input
+            fails = ["the oracle could not interpret the implementation's observations (%s: %s)" % (type(e).__name__, str(e)[:200])]
         kclass = mod.known_class(s, io) if hasattr(mod, "known_class") else None
         for f in fails:
             fk = f[1] if isinstance(f, tuple) else None
@@ -760,7 +763,10 @@ def replay(path):
         a = io[0][i] if io[0] and i < len(io[0]) else "<none>"
         b = mo[0][i] if mo[0] and i < len(mo[0]) else "<none>"
         print("%-3d %s\n      impl : %s\n      model: %s" % (i, op[:200], a[:200], b[:200]))
-    fails = mod.oracle(s, io[0]) if io[0] is not None else ["no output"]
+    try:
+        fails = mod.oracle(s, io[0]) if io[0] is not None else ["no output"]
+    except Exception as e:
+        fails = ["the oracle could not interpret the implementation's observations (%s: %s)" % (type(e).__name__, str(e)[:200])]
     print("oracle:", fails if fails else "passes")
     return 1 if fails else 0
 
